@@ -25,9 +25,10 @@ type GenOpts struct {
 }
 
 // the pools contain names that differ from a name of another pool only by letter case (gap/Gap, step/Step/STEP,
-// n/N, i/I, dist/DIST): symbols are case-sensitive, so these are different symbols
-var labelPool = []string{"lp", "loop1", "tgt", "_x", "Start", "bomb", "a1", "ptr_2", "X", "imp", "gate", "scan_lp", "q", "zz9", "_", "L0", "hit", "dst", "src", "boot", "Gap", "Step", "DIST", "I", "J", "Kk", "CNT"}
-var equPool = []string{"step", "STEP", "gap", "dist", "k1", "kk", "offs", "N", "first", "dbl"}
+// n/N, i/I, dist/DIST): symbols are case-sensitive, so these are different symbols; for the same reason the lower-case
+// spellings of the predefined constants (coresize, maxlength, ...) are ordinary user names
+var labelPool = []string{"lp", "loop1", "tgt", "_x", "Start", "bomb", "a1", "ptr_2", "X", "imp", "gate", "scan_lp", "q", "zz9", "_", "L0", "hit", "dst", "src", "boot", "Gap", "Step", "DIST", "I", "J", "Kk", "CNT", "mindistance", "maxprocesses", "Coresize"}
+var equPool = []string{"step", "STEP", "gap", "dist", "k1", "kk", "offs", "N", "first", "dbl", "coresize", "maxlength"}
 var ctrPool = []string{"i", "j", "n", "cnt", "ii"}
 
 func pick(r Rand, xs []string) string { return xs[r.Intn(len(xs))] }
@@ -454,6 +455,10 @@ func (g *genState) genForProgram(p *Prog, allLabels []string, n int, pending []I
 			}
 		} else {
 			f.Count = Lit{V: cnt}
+			if cnt == 0 && r.Intn(2) == 0 {
+				// a block that is never expanded fences off anything, an END line included
+				f.Dead = [][]string{{"end"}, {" END 2"}, {"end", "dat 1, 2"}, {"mov 0, 1", " end"}, {"dat undefined_in_dead_code"}}[r.Intn(5)]
+			}
 		}
 		saved := g.ctrs
 		if f.Counter != "" {
